@@ -581,7 +581,23 @@ func runTask(c *MultiCase, tk *MTask, t *mtask, tpl *otto.Otto, shared []sharedS
 		// run while other runtimes are mid-program
 		fresh := *tk
 		fresh.Origin = "fresh"
-		t.vm = makeRuntimeLive(c, &fresh, t)
+		// (the construction takes evaluation steps too: the batch step cap can
+		// fire inside it; the case is discarded then, like a program that overruns)
+		func() {
+			defer func() {
+				if x := recover(); x != nil {
+					ha, ok := x.(harnessAbort)
+					if !ok {
+						panic(x)
+					}
+					t.rec("ABORT " + ha.why)
+				}
+			}()
+			t.vm = makeRuntimeLive(c, &fresh, t)
+		}()
+		if t.vm == nil {
+			return
+		}
 		t.rec("LIVEFRESH")
 	}
 	for i := range tk.Progs {
